@@ -174,6 +174,9 @@ def finish(prop, tier, seed, k1, tres, t0, extra_errors=()):
                               r['key'], len({o['name'] for o in r.get('obligations', [])}), base['names']))
         if r.get('error') is None and not r.get('normal_exits') and not r.get('exc_exits'):
             errors.append('%s: no path reaches an exit (vacuous)' % r['key'])
+        if r.get('error') is None and not r.get('normal_exits') and r.get('expects_return'):
+            errors.append('%s: the contract has postconditions but no explored path returns normally '
+                          '(vacuous postconditions: an assumed fact contradicts the path, or every path raises)' % r['key'])
         for o in r.get('obligations', []):
             o = dict(o)
             o['source'] = r['key']
@@ -184,7 +187,7 @@ def finish(prop, tier, seed, k1, tres, t0, extra_errors=()):
             errors.append('%s: %s' % (r['name'], r['error']))
         for a in r.get('assumptions', []):
             assumptions.add('%s: %s' % (r['name'], a))
-        if r.get('error') is None and not r.get('obligations'):
+        if r.get('error') is None and not r.get('obligations') and not r.get('skipped'):
             errors.append('%s: zero obligations generated (vacuous)' % r['name'])
         functions.extend(r.get('functions', []))
         for o in r.get('obligations', []):
